@@ -21,7 +21,7 @@ ADV_ATOMS = [
 PLAIN_ATOMS = ["a", "b", "c", "Q", "x", "1", "2", " ", "é", "-", "_", "."]
 WORDS = ["alpha", "beta", "gamma", "delta", "omega", "sigma", "kappa", "zeta"]
 
-LANGS = ["English (en)", "French (fr)", "es", "Klingon", "default", "English", "French"]
+LANGS = ["English (en)", "French (fr)", "es", "Klingon", "default", "English", "French", "O’zbek (uz)", "Chinese (Simplified) (zh)"]
 
 NAME_PREFIX = ["q", "a", "x_", "n-", "v.", "é", "_", "Q", "k9", "guidance_hint_", "hint", "label_", "q_guidance_hint", "group_", "repeat_", "meta_", "jr_", "É", "Ö", "À", "Øx", "ÿ"]
 
@@ -352,7 +352,7 @@ class G:
         if P("p_custom_bind", 0.1):
             c["bind::" + self.pick(["jr:foo", "custom", "odk:x", "orx:y", "tag", "toParseString", "odk:length", "name", "id"])] = self.text("B") if P("_", 0.5) else self.expr()
         if P("p_custom_instance", 0.08):
-            c["instance::" + self.pick(["custom", "odk:tag", "jr:z", "tag", "id"])] = self.text("I")
+            c["instance::" + self.pick(["custom", "odk:tag", "jr:z", "tag", "id"])] = self.text_with_refs("I") if self.P.get("p_last_saved", 0) else self.text("I")
         if P("p_custom_body", 0.08) and base not in ("calculate", "hidden"):
             c["body::" + self.pick(["accept", "custom", "jr:q"])] = self.text("Y")
 
@@ -443,7 +443,8 @@ class G:
                 c["parameters"] = "randomize=true" + (self.pick(["", " seed=42", " seed=${%s}" % self.pick(self.names) if self.names else ""]))
         elif base == "range" and P("p_params", 0.5):
             c["parameters"] = self.pick(["start=0 end=5 step=1", "start=1;end=10;step=2", "start=0.5 end=5.5 step=0.5", "end=20", "step=2, start=2",
-                                           "start=0.5 end=10 step=1", "step=0.5 end=5", "start=1.5", "end=7.5 step=1", "start=0 end=1 step=0.1"])
+                                           "start=0.5 end=10 step=1", "step=0.5 end=5", "start=1.5", "end=7.5 step=1", "start=0 end=1 step=0.1",
+                                           "start=0.0 end=5 step=1", "start=-5 end=0.0 step=1", "start=0 end=5.0"])
         elif base == "text" and P("p_params", 0.2):
             c["parameters"] = "rows=" + str(self.integer(1, 9))
         elif base == "image":
@@ -490,6 +491,8 @@ class G:
         if base != "background-geopoint":
             if base == "calculate" or self.p("_", 0.85):
                 c["calculation"] = self.calc()
+                if self.P.get("p_bool_logic", 0) and self.p("p_bool_logic"):
+                    c["calculation"] = self.pick(["yes", "TRUE", "true", "no", "FALSE", "true()"])
             if base != "calculate" and self.p("_", 0.6):
                 c["label"] = self.text("L")
             if self.P.get("p_trigger_logic", 0) and self.p("p_trigger_logic"):
@@ -526,6 +529,10 @@ class G:
                     row = {"list_name": ln, "name": tname}
                     self.put_translated(row, "label", lambda: self.text("OT"), p_lang=bool(self.langs) and self.p("_", 0.6))
                     self.osm_rows.append(row)
+                if self.P.get("p_osm_self", 0) and self.p("p_osm_self"):
+                    # a tag named like the list it is in; two lists whose tags name each other
+                    self.osm_rows.append({"list_name": ln, "name": ln, "label": "Self"})
+                    self.osm_rows.append({"list_name": "building", "name": ln, "label": "Back"})
                 if self.p("_", 0.5):
                     self.osm_rows.append({"list_name": "building", "name": "yes", "label": "Yes"})
                     self.osm_rows.append({"list_name": "building", "name": "no", "label": "No"})
@@ -614,7 +621,9 @@ class G:
                 c["repeat_count"] = (self.pick(["3", "${%s}" % self.pick(self.names), "${%s} + 1" % self.pick(self.names),
                                                 "count(${%s})" % self.pick(self.names)]) if self.names else "2")
             if P("p_custom_instance", 0.05):
-                c["instance::" + self.pick(["custom", "odk:tag"])] = self.text("I")
+                c["instance::" + self.pick(["custom", "odk:tag", "tag", "toParseString", "id"])] = self.text("I")
+            if P("p_custom_body", 0.0) and kind == "g":
+                c["body::" + self.pick(["custom", "toParseString", "jr:q"])] = self.text("Y")
             node = {"k": kind, "c": c, "ch": []}
             (self.repeats if kind == "r" else self.sections).append(nm)
             if kind == "r" and inside_repeat:
